@@ -42,6 +42,9 @@ def one(d):
 
 def main():
     dirs = sorted(glob.glob(os.path.join(core.VERIF, 'seeded', 'C*-*')))
+    only = os.environ.get('PROPS')
+    if only:
+        dirs = [d for d in dirs if os.path.basename(d).split('-')[0] in only.split(',')]
     rows = []
     with cf.ProcessPoolExecutor(max_workers=12) as ex:
         for r in ex.map(one, dirs):
@@ -55,7 +58,7 @@ def main():
     n = len(rows)
     nv = sum(1 for r in rows if r[2] == 'VIOLATION')
     nu = sum(1 for r in rows if r[2] == 'ANALYSIS-ERROR')
-    with open(os.path.join(core.VERIF, 'seeded', 'STATUS.md'), 'w') as f:
+    with open(os.path.join(core.VERIF, 'seeded', 'STATUS.md') if not only else os.devnull, 'w') as f:
         f.write('# Seeded breaking changes vs. the static checks\n\n')
         f.write(f'{n} changes, each confirmed (pinned suite passes with it, its demo fails with it and passes without it). '
                 f'Reported as VIOLATION: {nv}; ANALYSIS-ERROR only (exit 2, restructured beyond a rule\'s grammar): {nu}; not reported: {n - nv - nu}.\n\n')
